@@ -24,12 +24,12 @@ def templates_for(tier, seed):
             core.append(d)
     core += list(fam.extras())
     u4 = list(fam.universe(4, 3, ("module", "function", "class")))
-    u4x = list(fam.universe(4, 3, ("def_in_loop", "method"))) + list(fam.decorated(3)) + list(fam.decorated(4))
+    u4x = list(fam.universe(4, 3, ("def_in_loop", "method"))) + list(fam.decorated(3)) + list(fam.decorated(4)) + list(fam.bare_returns(2)) + list(fam.bare_returns(3)) + list(fam.bare_returns(4))
     comp = list(fam.composed(3))
     if tier == "quick":
         rnd = random.Random(seed)
         # fixed core + seed-rotated slices of the 4-node universe and of the composed (deeper) family
-        pick4 = rnd.sample(u4, 120) + rnd.sample(u4x, 30)
+        pick4 = rnd.sample(u4, 120) + rnd.sample(u4x, 60)
         pickc = rnd.sample(comp, 260)
         chosen = core + pick4 + pickc
         universe_note = {"core": len(core), "u4": len(u4), "u4x": len(u4x), "picked4": len(pick4), "composed_universe": len(comp), "picked_composed": len(pickc)}
